@@ -381,20 +381,58 @@ def _is_member_test(run, lam_body, var, cls, const_name):
             and lam_body.comparators[0].attr == const_name)
 
 
-def _quantified(expr):
+_ITER_DEFS = {}     # id(fn node) -> {local name: the comprehension / map it is bound to (once)}
+
+
+def _quantified(expr, pol=True):
     """all(...)/any(...) over the pin bytes -> (quantifier, var, body, iterable) or None.
-    Recognised: Q(map(lambda c: B, X)) and Q(B for c in X)."""
+    Recognised: Q(map(lambda c: B, X)), Q(B for c in X) and Q(B for c in [F(y) for y in X]) (fused into Q(B[F(y)] for y in X), also when the inner
+    list is held in a local bound once); a quantifier known to be false is the dual quantifier over the negated body."""
     if not (isinstance(expr, ast.Call) and isinstance(expr.func, ast.Name)
             and expr.func.id in ("all", "any") and len(expr.args) == 1):
         return None
     a = expr.args[0]
+    q = None
     if isinstance(a, ast.Call) and call_name(a) == "map" and len(a.args) == 2 \
             and isinstance(a.args[0], ast.Lambda) and len(a.args[0].args.args) == 1:
-        return expr.func.id, a.args[0].args.args[0].arg, a.args[0].body, a.args[1]
-    if isinstance(a, ast.GeneratorExp) and len(a.generators) == 1 and not a.generators[0].ifs \
+        q = [expr.func.id, a.args[0].args.args[0].arg, a.args[0].body, a.args[1]]
+    elif isinstance(a, (ast.GeneratorExp, ast.ListComp)) and len(a.generators) == 1 and not a.generators[0].ifs \
             and isinstance(a.generators[0].target, ast.Name):
-        return expr.func.id, a.generators[0].target.id, a.elt, a.generators[0].iter
-    return None
+        q = [expr.func.id, a.generators[0].target.id, a.elt, a.generators[0].iter]
+    if q is None:
+        return None
+    # fusion with an inner mapping
+    it = q[3]
+    for _ in range(2):
+        if isinstance(it, ast.Name) and it.id in _ITER_DEFS.get("cur", {}):
+            it = _ITER_DEFS["cur"][it.id]
+        inner = None
+        if isinstance(it, (ast.ListComp, ast.GeneratorExp)) and len(it.generators) == 1 and not it.generators[0].ifs and isinstance(it.generators[0].target, ast.Name):
+            inner = (it.generators[0].target.id, it.elt, it.generators[0].iter)
+        elif isinstance(it, ast.Call) and call_name(it) in ("list", "tuple") and len(it.args) == 1:
+            it = it.args[0]
+            continue
+        elif isinstance(it, ast.Call) and call_name(it) == "map" and len(it.args) == 2 and isinstance(it.args[0], ast.Lambda) and len(it.args[0].args.args) == 1:
+            inner = (it.args[0].args.args[0].arg, it.args[0].body, it.args[1])
+        if inner is None:
+            break
+        from sa.decide import subst
+        q[2] = subst(q[2], {q[1]: inner[1]})
+        q[1], it = inner[0], inner[2]
+    q[3] = it
+    if not pol:
+        q[0] = "any" if q[0] == "all" else "all"
+        q[2] = ast.UnaryOp(op=ast.Not(), operand=q[2])
+    # not (a not in b) -> a in b ; not (a in b) -> a not in b
+    b = q[2]
+    neg = False
+    while isinstance(b, ast.UnaryOp) and isinstance(b.op, ast.Not):
+        b, neg = b.operand, not neg
+    if neg and isinstance(b, ast.Compare) and len(b.ops) == 1 and isinstance(b.ops[0], (ast.In, ast.NotIn)):
+        b = ast.Compare(left=b.left, ops=[ast.NotIn() if isinstance(b.ops[0], ast.In) else ast.In()], comparators=b.comparators)
+        neg = False
+    q[2] = ast.UnaryOp(op=ast.Not(), operand=b) if neg else b
+    return tuple(q)
 
 
 def _policy(run, F, BASE, rid="R4"):
@@ -452,6 +490,12 @@ def _policy(run, F, BASE, rid="R4"):
     # is_valid: every non-False return on the any_pin == False partition passes the four atoms
     gv = A.cfg(isv, BASE)
     pin = isv.params[1]
+    # locals of is_valid bound once to a comprehension / map over the pin (chars = [chr(c) for c in pin])
+    _ITER_DEFS["cur"] = {}
+    for nm_ in {n.id for n in ast.walk(isv.node) if isinstance(n, ast.Name)}:
+        ds_ = defs_of(A, isv, nm_)
+        if len(ds_) == 1 and isinstance(getattr(ds_[0], "value", None), (ast.ListComp, ast.GeneratorExp, ast.Call)) and nm_ not in isv.params:
+            _ITER_DEFS["cur"][nm_] = ds_[0].value
     anyp = isv.params[2] if len(isv.params) > 2 else None
     found = {"type": False, "charset": False, "length": False, "alpha": False}
     weak = []
@@ -463,12 +507,15 @@ def _policy(run, F, BASE, rid="R4"):
             facts = F.local(isv, BASE, rn)
             on_any = any(f.kind == "truthy" and f.pol and isinstance(f.expr, ast.Name) and f.expr.id == anyp
                          for f in facts)
+            # a truthy `return a and b and c` has established each of its operands
+            from sa.query import make_facts
+            conj = v.values if isinstance(v, ast.BoolOp) and isinstance(v.op, ast.And) else [v]
+            facts = list(facts) + [f_ for c_ in conj for f_ in make_facts("T", c_, isv, rn)]
             atoms = _atoms(run, facts, pin, BASE, weak)
-            q = _quantified(v)
-            if q and q[0] == "any" and norm(q[3]) == pin and _is_member_test(run, q[2], q[1], BASE, "ALPHA_CHARS"):
-                atoms.add("alpha")
-            elif q and q[0] == "any":
-                weak.append(norm(v))
+            for c_ in conj:
+                q = _quantified(c_)
+                if q and q[0] == "any" and not (norm(q[3]) == pin and _is_member_test(run, q[2], q[1], BASE, "ALPHA_CHARS")):
+                    weak.append(norm(c_))
             if on_any:
                 need = {"type", "charset"}
                 tag = "any_pin"
@@ -511,8 +558,8 @@ def _atoms(run, facts, pin, BASE, weak):
             ok, v = try_fold(P, f.right, f.fn, BASE)
             if ok and v == 8:
                 out.add("length")
-        if f.kind == "call" and f.pol:
-            q = _quantified(f.expr)
+        if f.kind == "call":
+            q = _quantified(f.expr, f.pol)
             if q and q[0] == "all" and norm(q[3]) == pin:
                 if _is_member_test(run, q[2], q[1], BASE, "POSSIBLE_CHARS"):
                     out.add("charset")
